@@ -248,20 +248,6 @@ Definition avps_read : prog (list (dres avp)) :=
   n <- len_ ;; greedy (S (N.to_nat n)).
 
 (** * control message (src/message/control_message.rs) *)
-Definition is_err {A} (r : dres A) : bool := match r with Err _ => true | Ok _ => false end.
-Fixpoint errs_of {A} (l : list (dres A)) : list derr :=
-  match l with
-  | [] => []
-  | Err e :: t => e :: errs_of t
-  | Ok _ :: t => errs_of t
-  end.
-Fixpoint oks_of {A} (l : list (dres A)) : list A :=
-  match l with
-  | [] => []
-  | Ok a :: t => a :: oks_of t
-  | Err _ :: t => oks_of t
-  end.
-
 Definition first_ok (rs : list (dres avp)) : bool :=
   match rs with
   | [] => true
